@@ -952,16 +952,18 @@ func (g *apiGen) next0() *apiCall {
 	case k < 900:
 		c.M = "dropIndexByKey"
 		c.Keys = g.indexKeys()
-		if r.P(12) {
-			// key specifications of the _id index in other numeric types / directions: never drop it
-			c.Keys = bson.D{{Key: "_id", Value: []interface{}{int32(1), float64(1), int64(1), int32(-1), float64(-1)}[r.N(5)]}}
-		}
 		if ns := g.env.engine.Catalog().Namespaces[lungo.Handle{db, coll}]; ns != nil && r.P(70) {
 			names := g.indexNames(db, coll)
 			if sec := g.secondaryIndexNames(db, coll); len(sec) > 0 && r.P(85) {
 				names = sec
 			}
-			c.Keys = *ns.Indexes[names[r.N(len(names))]].Config().Key
+			if len(names) > 0 {
+				c.Keys = *ns.Indexes[names[r.N(len(names))]].Config().Key
+			}
+		}
+		if r.P(12) {
+			// key specifications of the _id index in other numeric types / directions: never drop it
+			c.Keys = bson.D{{Key: "_id", Value: []interface{}{int32(1), float64(1), int64(1), int32(-1), float64(-1)}[r.N(5)]}}
 		}
 	// ---- drops (5 %)
 	case k < 925:
